@@ -34,6 +34,16 @@ def segActive (f : Frame) (σ : Asg) : LSeg → Bool
   | .h y x => truthAt σ f.horizontal.data (y * f.width + x)
   | .v y x => truthAt σ f.vertical.data (y * (f.width + 1) + x)
 
+/-- A frame is well formed: its two arrays have the shapes every `BoolGridFrame` has (horizontal
+`(H+1) × W`, vertical `H × (W+1)`, row-major data of exactly that many entries).  Nothing is said
+about what the entries are: fresh variables at any offset, the arrays of an inner frame swapped by
+`dual()`, negated variables, compound expressions. -/
+def FrameWF (f : Frame) : Prop :=
+  f.horizontal.h = f.height + 1 ∧ f.horizontal.w = f.width ∧
+  f.horizontal.data.length = (f.height + 1) * f.width ∧
+  f.vertical.h = f.height ∧ f.vertical.w = f.width + 1 ∧
+  f.vertical.data.length = f.height * (f.width + 1)
+
 /-- Number of active segments at lattice point `(y, x)` (up, down, left, right). -/
 def pointDegree (H W : Nat) (act : LSeg → Bool) (y x : Nat) : Nat :=
   (if 0 < y ∧ act (.v (y - 1) x) then 1 else 0) + (if y < H ∧ act (.v y x) then 1 else 0) +
